@@ -465,11 +465,22 @@ func shapeOf(s string) string {
 
 // evalSite computes the topic of one site for one tuple of variable values.
 func evalSite(s *site, vars []string, values []string) (opName string, res evalResult) {
-	eval := evalJava
+	base := evalJava
 	delimName := "DELIMITER"
 	if s.Lang == "dart" {
-		eval = evalDart
+		base = evalDart
 		delimName = "delimiter"
+	}
+	// an expression the evaluator does not understand is inconclusive unless
+	// it is certainly broken by a quote character pasted from the prefix
+	eval := func(expr string, env map[string]string) evalResult {
+		r := base(expr, env)
+		if r.Status == stUnknown {
+			if broken, why := brokenByQuote(s.Lang, expr); broken {
+				return evalResult{Status: stCompileError, Msg: why + " (" + expr + ")"}
+			}
+		}
+		return r
 	}
 	if !s.HasOp || !s.HasPrefix || !s.HasDelim || !s.HasHeader {
 		return "", evalResult{Status: stUnknown, Msg: fmt.Sprintf("topic statement without op/prefix/delimiter/method header nearby (op=%v prefix=%v delimiter=%v header=%v)", s.HasOp, s.HasPrefix, s.HasDelim, s.HasHeader), Stage: "topic"}
@@ -511,12 +522,63 @@ func evalSite(s *site, vars []string, values []string) (opName string, res evalR
 	return o.Value, t
 }
 
+// brokenByQuote decides lexically whether a right-hand side that the evaluator
+// did not understand certainly fails to compile because a quote character
+// pasted from the prefix ends a string literal early: (a) the line ends
+// inside a string literal (single-line literals cannot span lines), or (b) a
+// string literal starts directly after an operand (identifier, number,
+// closing bracket; in Java also another literal) with no operator between.
+func brokenByQuote(lang, rhs string) (bool, string) {
+	in := byte(0)
+	var prev byte         // last significant character outside literals
+	afterLiteral := false // that character was the closing quote of a literal
+	for i := 0; i < len(rhs); i++ {
+		c := rhs[i]
+		if in != 0 {
+			switch {
+			case c == '\\':
+				i++
+			case c == in:
+				in = 0
+				prev, afterLiteral = c, true
+			}
+			continue
+		}
+		if c == '"' || c == '\'' {
+			operand := !afterLiteral && (isIdentByte(prev) || prev == ')' || prev == ']')
+			if lang == "java" && afterLiteral {
+				operand = true // Java has no adjacent-literal concatenation
+			}
+			if lang == "dart" && prev == 'r' && !afterLiteral && (i < 2 || !isIdentByte(rhs[i-2])) {
+				operand = false // raw string r'...'
+			}
+			if operand {
+				return true, "a string literal starts directly after an operand: a quote character of the prefix ended the literal early"
+			}
+			in = c
+			continue
+		}
+		if c != ' ' && c != '\t' {
+			prev, afterLiteral = c, false
+		}
+	}
+	if in != 0 {
+		return true, "unterminated string literal: a quote character of the prefix ended the literal early"
+	}
+	return false, ""
+}
+
+func isIdentByte(c byte) bool {
+	return c == '_' || c == '$' || (c >= '0' && c <= '9') || (c >= 'a' && c <= 'z') || (c >= 'A' && c <= 'Z')
+}
+
 // kindOf names the class of a definite evaluation failure (part of the signature).
 func kindOf(msg string) string {
 	for _, p := range [][2]string{
 		{"UnknownFormatConversionException", "java-unknown-format-conversion"},
 		{"MissingFormatArgumentException", "java-missing-format-argument"},
 		{"IllegalFormatConversionException", "java-illegal-format-conversion"},
+		{"ended the literal early", "string-literal-broken-by-quote"},
 		{"illegal escape", "java-illegal-escape"},
 		{"unterminated", "unterminated-string-literal"},
 		{"cannot find symbol", "java-unknown-symbol"},
